@@ -13,6 +13,7 @@ import ZapModel.Script
 import ZapModel.Spec
 import ZapModel.Life
 import ZapModel.Vector
+import ZapModel.Layout
 import ZapModel.EncCheck
 import Std.Data.HashMap
 
@@ -366,6 +367,11 @@ def commandObs (st : St) (c : Cmd) : St × Verdict :=
       else (st, .pred (fun g => g.startsWith "ok" ∧ kvOf g "n" == some (toString full) ∧ kvOf g "len" == some (toString full)) "ok n=len=full")
     | none => (st, .pred (fun g => g.startsWith "ok" ∧ kvOf g "n" == kvOf g "len") "ok n=len")
   | "cmpfile" => (st, .exact "same=1")
+  | "dumpfile" =>
+    match st.files.get? (c.arg 0) with
+    | none => (st, .exact "scripterror:nofile")
+    | some s => (st, .pred (fun g => Layout.checkDump s g)
+        ("file decodes, by the documented v16 layout, to exactly the model content " ++ "(Layout.checkDump)"))
   | "footer" => (st, .pred (footerCheck c) "footer: docs, chunk mode, version 16, CRC-32 of all preceding bytes")
   | "open" =>
     match st.files.get? (c.arg 1) with
